@@ -61,6 +61,7 @@ fn parse_ifdata_from_spec(
     spec: &A2mlTypeSpec,
 ) -> Option<GenericIfData> {
     let pos = parser.get_tokenpos();
+    parser.ifdata_empty_elements = 0;
     if let Ok(ifdata) = parse_ifdata_item(parser, context, spec) {
         // comments between the last item and the /end of the IF_DATA are not content
         while let Some(A2lToken {
@@ -92,6 +93,9 @@ fn parse_ifdata_from_spec(
         None
     }
 }
+
+// The maximum number of array elements in one IF_DATA block which match without consuming any input
+const MAX_EMPTY_ARRAY_ELEMENTS: usize = 0x1_0000;
 
 // parse_ifdata_item()
 // parse one item together with all of its dependent elements according to an A2mlTypeSpec
@@ -151,7 +155,23 @@ fn parse_ifdata_item(
             } else {
                 let mut arrayitems = Vec::new();
                 for _ in 0..*dim {
+                    let startpos = parser.get_tokenpos();
                     arrayitems.push(parse_ifdata_item(parser, context, arraytype)?);
+                    if parser.get_tokenpos() == startpos {
+                        // the element matched without consuming any input (e.g. a taggedstruct without any of its tags).
+                        // The dimension can be any number, so the number of such elements is limited: the data
+                        // does not limit it, and nothing could stop the creation of billions of them
+                        parser.ifdata_empty_elements += 1;
+                        if parser.ifdata_empty_elements > MAX_EMPTY_ARRAY_ELEMENTS {
+                            return Err(ParserError::InvalidMultiplicityTooMany {
+                                filename: parser.filenames[context.fileid].to_string(),
+                                error_line: parser.last_token_position,
+                                tag: String::from("(empty array element)"),
+                                block: context.element.clone(),
+                                block_line: context.line,
+                            });
+                        }
+                    }
                 }
                 GenericIfData::Array(arrayitems)
             }
